@@ -299,6 +299,62 @@ def zero_test_views(ctx):
                             break
 
 
+# ---------------------------------------------------------------------------------------------------------
+# generic rule: a sharing opened with a threshold above t (a product of sharings) must be re-randomised
+# ---------------------------------------------------------------------------------------------------------
+async def _eq_prog(mpc):
+    """equality tests of wide integers ([NO07] probabilistic zero test) and public zero tests / reciprocals"""
+    T = mpc.SecInt(64)
+    x = mpc.input(T(12345678901), senders=0)
+    y = mpc.input(T(-77), senders=0)
+    F = mpc.SecFld(2**61 - 1)
+    u = mpc.input(F(7), senders=0)
+    r = [x == y, x == x + 0, mpc.is_zero(y), x != y, 1 / u, u / (u + 1)]
+    z = await mpc.is_zero_public(u)
+    return [int(v) for v in await mpc.output(r)] + [bool(z)]
+
+
+def degree_rule_case(name, prog, m, t, no_prss, k, seed):
+    net = SimNet(m, t, no_prss=no_prss, seed=seed, sched=Scheduler(seed, 'random'), sec_param=k, max_steps=3_000_000)
+    with sharemon.ShareMonitor(net, record_results=False) as mon:
+        net.run(prog)
+    n_open = 0
+    for i in range(m):
+        zeros = {}
+        for e in mon.events[i]:
+            if e[0] == 'zero':
+                zeros[e[3]] = zeros.get(e[3], 0) + e[2]
+            elif e[0] == 'open' and e[2] is not None and e[2] > t:
+                n_open += 1
+                have = zeros.get(e[4], 0)
+                if have < e[5]:
+                    return (f'{e[1]} opens {e[5]} value(s) with threshold {e[2]} > t = {t} (a product of sharings) but drew only '
+                            f'{have} fresh sharings of zero before: the product polynomial is opened as it is'), n_open
+                zeros[e[4]] = have - e[5]
+    return None, n_open
+
+
+def degree_rule(ctx):
+    import programs
+    rng = ctx.subrng('degree-rule')
+    progs = [('eq_wide', _eq_prog)] + [(n, programs.PROGRAMS[n][0]()) for n in ('arith', 'fxp', 'bits_sort', 'fld_conv', 'secflt')
+                                      if n in programs.PROGRAMS]
+    for (m, t, no_prss, k) in [(3, 1, False, 30), (3, 1, True, 30), (5, 2, False, 8)] + ([(5, 2, True, 30)] if ctx.thorough else []):
+        for name, prog in progs:
+            seed = rng.randrange(10**9)
+            rep = {'kind': 'degree-rule', 'program': name, 'm': m, 't': t, 'no_prss': no_prss, 'k': k, 'seed': seed}
+            try:
+                msg, n_open = degree_rule_case(name, prog, m, t, no_prss, k, seed)
+            except (Deadlock, PartyError) as exc:
+                ctx.violation(f'C18: program {name} does not run: {str(exc)[:200]}', rep)
+                return
+            ctx.case(('degree-rule', name, m, t, no_prss, k), nontrivial=n_open > 0)
+            ctx.count('degree-rule-openings', n_open)
+            if msg:
+                ctx.violation('C18: ' + msg, rep)
+                return
+
+
 def binom_two_sided_ok(ones, n, alpha=1e-9):
     """is `ones` out of n fair coin flips plausible? (exact binomial tail bound via Hoeffding, conservative)"""
     if n == 0:
@@ -406,6 +462,7 @@ def run(ctx):
                     ctx.sample({'site': site, 'cfg': [m, t, no_prss, k], 'input': a_val, 'max_mask_bits': mx.bit_length(),
                                 'window_bits': [win[0].bit_length(), win[1].bit_length()], 'runs': N})
     zero_test_views(ctx)
+    degree_rule(ctx)
     model = common.LeanDriver('Share').run(lines)
     ctx.compare('mask range rounding (runtime._randoms vs MpycV.Share.maskBound)', exps, model, metas)
 
@@ -422,6 +479,14 @@ def replay(ctx, data):
         except (Deadlock, PartyError) as exc:
             return False, str(exc)[:200]
         return msg is None, msg or 'ok: every opening is re-randomised by a fresh sharing of zero'
+    if data.get('kind') == 'degree-rule':
+        import programs
+        prog = _eq_prog if data['program'] == 'eq_wide' else programs.PROGRAMS[data['program']][0]()
+        try:
+            msg, _ = degree_rule_case(data['program'], prog, data['m'], data['t'], data['no_prss'], data['k'], data['seed'])
+        except (Deadlock, PartyError) as exc:
+            return False, str(exc)[:200]
+        return msg is None, msg or 'ok: every opening above threshold t is preceded by fresh sharings of zero'
     if data.get('kind') == 'site':
         try:
             run_site(data['site'], data['a'], data['l'], data['f'], data['m'], data['t'], data['no_prss'], data['k'], data['seed'])
